@@ -76,6 +76,31 @@ def driver_stderr_heads(ctx):
             pass
     return heads
 
+def replay_retry(ctx, binary, cases, **kw):
+    """ctx.replay, then one retry (fresh processes) of the cases that got no verdict because a driver process died or a case
+    hung. The real tsi1 code has rare races under background compaction (use-after-unmap SIGSEGV, delete vs. compaction
+    deadlock: reported as findings, not this property's subject); a case that fails to produce a verdict twice stays
+    inconclusive (exit 2). What happened is recorded in the evidence (driver_crashes)."""
+    n_infra = len(ctx.infra)
+    res, lines = ctx.replay(binary, cases, **kw)
+    lost = [i for i, r in enumerate(res) if not r.get('ok') and (r.get('kind') == 'hang' or
+            (r.get('kind') == 'infra' and 'no result' in (r.get('msg') or '')))]
+    heads = driver_stderr_heads(ctx)
+    if lost and len(lost) <= max(50, len(cases) // 5):
+        vlib.log(f'{len(lost)} cases without verdict (driver died / hung); retrying them once')
+        for h in heads[:3]:
+            vlib.log('driver stderr head: ' + h[:1500])
+        ctx.extra_cov['driver_crashes'] = {'cases_retried': len(lost), 'stderr_heads': [h[:600] for h in heads[:3]]}
+        del ctx.infra[n_infra:]
+        kw2 = dict(kw)
+        kw2['procs'] = min(kw.get('procs') or 4, max(1, len(lost)))
+        res2, _ = ctx.replay(binary, [cases[i] for i in lost], **kw2)
+        for j, i in enumerate(lost):
+            r = dict(res2[j])
+            r['id'] = i
+            res[i] = r
+    return res, lines
+
 def run(ctx):
     thorough = ctx.tier == 'thorough'
     tab = series_tab(ctx)
@@ -199,12 +224,8 @@ def run(ctx):
     ctx.extra_cov['cases_generated'] = len(out)
     ctx.extra_cov['cases_replayed'] = len(chosen)
     tolerate = ','.join(k['pattern'] for k in ctx.known if k.get('property') == ctx.id and not str(k.get('status', 'open')).startswith('fixed'))
-    res, lines = ctx.replay(binary, chosen, timeout=1500 if not thorough else 1700, procs=min(16, ncpu), args={'tolerate': tolerate}, case_timeout='900s')
+    res, lines = replay_retry(ctx, binary, chosen, timeout=1500 if not thorough else 1700, procs=min(16, ncpu), args={'tolerate': tolerate}, case_timeout='900s')
     ctx.absorb(res, lines)
-    for h in driver_stderr_heads(ctx)[:4]:
-        vlib.log('driver stderr head: ' + h)
-        if ctx.infra:
-            ctx.infra.append('driver stderr head: ' + h[:1400])
     stopped = sum(1 for x in res if (x.get('extra') or {}).get('stopped'))
     structs = set()
     for x in res:
